@@ -23,3 +23,625 @@ Definition leaf_fold (d : decl) (v : uval) (us : list upd) : res uval :=
 (* magnitude in base units *)
 Definition base (v : uval) : Z := match v with UQty m s => m * s | _ => 0 end.
 
+(* ================= infrastructure ================= *)
+
+(* induction principle reaching the nested occurrences of upd *)
+Section UpdInd.
+  Variable P : upd -> Prop.
+  Hypothesis HVal : forall u, P (UVal u).
+  Hypothesis HDv : forall u, P (UDv u).
+  Hypothesis HWith : forall f x, P (UWith f x).
+  Hypothesis HMulti : forall l, Forall P l -> P (UMulti l).
+  Hypothesis HBranch : forall c, Forall (fun kv => P (snd kv)) c -> P (UBranch c).
+  Fixpoint upd_ind' (u : upd) : P u :=
+    match u with
+    | UVal x => HVal x
+    | UDv x => HDv x
+    | UWith f x => HWith f x
+    | UMulti l => HMulti l ((fix go (l : list upd) : Forall P l :=
+                               match l with
+                               | [] => Forall_nil _
+                               | x :: r => Forall_cons x (upd_ind' x) (go r)
+                               end) l)
+    | UBranch c => HBranch c ((fix go (l : list (key * upd)) : Forall (fun kv => P (snd kv)) l :=
+                                 match l with
+                                 | [] => Forall_nil _
+                                 | kv :: r => Forall_cons kv (upd_ind' (snd kv)) (go r)
+                                 end) c)
+    end.
+End UpdInd.
+
+(* named versions of the local loops of apply_update / updates_at *)
+Fixpoint multi_go (l : list upd) (s : snode) : res snode :=
+  match l with
+  | [] => Ok s
+  | x :: r => match apply_update s x with Ok s' => multi_go r s' | Err e => Err e end
+  end.
+
+Fixpoint branch_go (c : list (key * upd)) (sc : list (key * snode)) : res snode :=
+  match c with
+  | [] => Ok (SBranch sc)
+  | (k, x) :: r =>
+    match alookup k sc with
+    | Some child => match apply_update child x with
+                    | Ok child' => branch_go r (aset k child' sc)
+                    | Err e => Err e
+                    end
+    | None => branch_go r sc
+    end
+  end.
+
+Fixpoint find_upd (c : list (key * upd)) (k : key) (p : list key) : list upd :=
+  match c with
+  | [] => []
+  | (k', x) :: r => if N.eqb k' k then updates_at x p else find_upd r k p
+  end.
+
+Lemma apply_update_multi l : forall s, apply_update s (UMulti l) = multi_go l s.
+Proof.
+  induction l as [|x r IH]; intros s.
+  - reflexivity.
+  - cbn [multi_go]. change (apply_update s (UMulti (x :: r)))
+      with (match apply_update s x with Ok s' => apply_update s' (UMulti r) | Err e => Err e end).
+    destruct (apply_update s x) as [s1|e]; [apply IH|reflexivity].
+Qed.
+
+Lemma apply_update_branch c : forall sc, apply_update (SBranch sc) (UBranch c) = branch_go c sc.
+Proof.
+  induction c as [|[k x] r IH]; intros sc.
+  - reflexivity.
+  - cbn [branch_go].
+    change (apply_update (SBranch sc) (UBranch ((k, x) :: r)))
+      with (match alookup k sc with
+            | Some child => match apply_update child x with
+                            | Ok child' => apply_update (SBranch (aset k child' sc)) (UBranch r)
+                            | Err e => Err e
+                            end
+            | None => apply_update (SBranch sc) (UBranch r)
+            end).
+    destruct (alookup k sc) as [child|]; [|apply IH].
+    destruct (apply_update child x) as [child'|e]; [apply IH|reflexivity].
+Qed.
+
+Lemma updates_at_multi l p : updates_at (UMulti l) p = concat (map (fun u => updates_at u p) l).
+Proof.
+  induction l as [|x r IH].
+  - reflexivity.
+  - cbn [map concat]. rewrite <- IH. reflexivity.
+Qed.
+
+Lemma updates_at_branch c k p : updates_at (UBranch c) (k :: p) = find_upd c k p.
+Proof.
+  induction c as [|[k' x] r IH].
+  - reflexivity.
+  - cbn [find_upd].
+    change (updates_at (UBranch ((k', x) :: r)) (k :: p))
+      with (if N.eqb k' k then updates_at x p else updates_at (UBranch r) (k :: p)).
+    destruct (N.eqb k' k); [reflexivity|apply IH].
+Qed.
+
+Lemma Forall_snd_aset {V} (Q : V -> Prop) k v (l : list (key * V)) :
+  Q v -> Forall (fun kv => Q (snd kv)) l -> Forall (fun kv => Q (snd kv)) (aset k v l).
+Proof.
+  intros Hv Hl. induction Hl as [|[k0 v0] r H0 Hr IH]; cbn.
+  - constructor; auto.
+  - destruct (N.eqb k0 k); constructor; auto.
+Qed.
+
+Lemma Forall_snd_alookup {V} (Q : V -> Prop) k v (l : list (key * V)) :
+  Forall (fun kv => Q (snd kv)) l -> alookup k l = Some v -> Q v.
+Proof.
+  intros Hl Hk. apply alookup_In in Hk. rewrite Forall_forall in Hl. exact (Hl _ Hk).
+Qed.
+
+(* ================= apply_update preserves well-formedness ================= *)
+
+Lemma apply_update_swf_gen u : forall s s', swf s -> apply_update s u = Ok s' -> swf s'.
+Proof.
+  induction u as [x|x|f x|l IHl|c IHc] using upd_ind'; intros s s' Hs Happ.
+  - destruct s as [d v|sc]; cbn [apply_update] in Happ; [|discriminate].
+    destruct (apply_leaf d v (UVal x)); inversion Happ; constructor.
+  - destruct s as [d v|sc]; cbn [apply_update] in Happ; [|discriminate].
+    destruct (apply_leaf d v (UDv x)); inversion Happ; constructor.
+  - destruct s as [d v|sc]; cbn [apply_update] in Happ; [|discriminate].
+    destruct (apply_leaf d v (UWith f x)); inversion Happ; constructor.
+  - rewrite apply_update_multi in Happ. revert s Hs Happ.
+    induction IHl as [|x r Hx Hr IH]; intros s Hs Happ; cbn in Happ.
+    + inversion Happ; subst; exact Hs.
+    + destruct (apply_update s x) as [s1|e] eqn:E1; [|discriminate].
+      apply (IH s1); [eapply Hx; eauto|exact Happ].
+  - destruct s as [d v|sc]; [cbn in Happ; discriminate|].
+    rewrite apply_update_branch in Happ.
+    inversion Hs as [|sc0 Hnd Hall]; subst sc0. clear Hs.
+    revert sc Hnd Hall Happ.
+    induction IHc as [|[k x] r Hx Hr IH]; intros sc Hnd Hall Happ; cbn [branch_go] in Happ.
+    + inversion Happ; subst. constructor; assumption.
+    + cbn [snd] in Hx. destruct (alookup k sc) as [child|] eqn:Ek.
+      * destruct (apply_update child x) as [child'|e] eqn:E1; [|discriminate].
+        apply (IH (aset k child' sc)); [apply aset_nodup; exact Hnd| |exact Happ].
+        apply Forall_snd_aset; [|exact Hall].
+        eapply Hx; [|exact E1]. eapply Forall_snd_alookup; eauto.
+      * apply (IH sc); assumption.
+Qed.
+
+Theorem apply_update_swf s u s' : swf s -> apply_update s u = Ok s' -> swf s'.
+Proof. apply apply_update_swf_gen. Qed.
+
+(* ================= shape: no node created, removed or re-declared ================= *)
+
+Definition same_kind (a b : option snode) : Prop :=
+  match a, b with
+  | None, None => True
+  | Some (SLeaf d _), Some (SLeaf d' _) => d = d'
+  | Some (SBranch _), Some (SBranch _) => True
+  | _, _ => False
+  end.
+
+Lemma same_kind_refl a : same_kind a a.
+Proof. destruct a as [[d v|c]|]; cbn; auto. Qed.
+
+Lemma same_kind_trans a b c : same_kind a b -> same_kind b c -> same_kind a c.
+Proof.
+  destruct a as [[d v|ca]|], b as [[d1 v1|cb]|], c as [[d2 v2|cc]|]; cbn; try tauto; congruence.
+Qed.
+
+Definition child_at (sc : list (key * snode)) (k : key) (p : list key) : option snode :=
+  match alookup k sc with Some ch => snode_at ch p | None => None end.
+
+Lemma snode_at_branch sc k p : snode_at (SBranch sc) (k :: p) = child_at sc k p.
+Proof. reflexivity. Qed.
+
+Lemma apply_update_kind u : forall s s' p, apply_update s u = Ok s' ->
+  same_kind (snode_at s p) (snode_at s' p).
+Proof.
+  induction u as [x|x|f x|l IHl|c IHc] using upd_ind'; intros s s' p Happ.
+  - destruct s as [d v|sc]; cbn [apply_update] in Happ; [|discriminate].
+    destruct (apply_leaf d v (UVal x)); inversion Happ; subst. destruct p; cbn; auto.
+  - destruct s as [d v|sc]; cbn [apply_update] in Happ; [|discriminate].
+    destruct (apply_leaf d v (UDv x)); inversion Happ; subst. destruct p; cbn; auto.
+  - destruct s as [d v|sc]; cbn [apply_update] in Happ; [|discriminate].
+    destruct (apply_leaf d v (UWith f x)); inversion Happ; subst. destruct p; cbn; auto.
+  - rewrite apply_update_multi in Happ. revert s Happ.
+    induction IHl as [|x r Hx Hr IH]; intros s Happ; cbn [multi_go] in Happ.
+    + inversion Happ; subst. apply same_kind_refl.
+    + destruct (apply_update s x) as [s1|e] eqn:E1; [|discriminate].
+      eapply same_kind_trans; [eapply Hx; exact E1|apply IH; exact Happ].
+  - destruct s as [d v|sc]; [cbn in Happ; discriminate|].
+    rewrite apply_update_branch in Happ.
+    assert (Hgo : exists sc', s' = SBranch sc' /\
+                   forall k p', same_kind (child_at sc k p') (child_at sc' k p')).
+    { revert sc Happ.
+      induction IHc as [|[k x] r Hx Hr IH]; intros sc Happ; cbn [branch_go] in Happ.
+      - inversion Happ; subst. exists sc. split; [reflexivity|]. intros; apply same_kind_refl.
+      - cbn [snd] in Hx. destruct (alookup k sc) as [child|] eqn:Ek.
+        + destruct (apply_update child x) as [child'|e] eqn:E1; [|discriminate].
+          destruct (IH _ Happ) as [sc' [-> Hsc']]. exists sc'. split; [reflexivity|].
+          intros k0 p'. eapply same_kind_trans; [|apply Hsc'].
+          unfold child_at. destruct (N.eq_dec k k0) as [<-|Hne].
+          * rewrite alookup_aset_eq, Ek. eapply Hx; exact E1.
+          * rewrite alookup_aset_neq by exact Hne. apply same_kind_refl.
+        + apply IH; exact Happ. }
+    destruct Hgo as [sc' [-> Hsc']].
+    destruct p as [|k p']; [cbn; exact I|].
+    rewrite !snode_at_branch. apply Hsc'.
+Qed.
+
+(* ================= characterisation ================= *)
+
+Lemma fold_rbind_err {A B} (f : A -> B -> res A) l e :
+  fold_left (fun acc u => rbind acc (fun a => f a u)) l (Err e) = Err e.
+Proof. induction l as [|x r IH]; cbn; auto. Qed.
+
+Lemma leaf_fold_nil d v : leaf_fold d v [] = Ok v.
+Proof. reflexivity. Qed.
+
+Lemma leaf_fold_one d v u : leaf_fold d v [u] = apply_leaf d v u.
+Proof. reflexivity. Qed.
+
+Lemma leaf_fold_app d v a b v1 : leaf_fold d v a = Ok v1 -> leaf_fold d v (a ++ b) = leaf_fold d v1 b.
+Proof.
+  unfold leaf_fold. intros H. rewrite fold_left_app, H. reflexivity.
+Qed.
+
+Lemma find_upd_notin c k p : ~ In k (akeys c) -> find_upd c k p = [].
+Proof.
+  induction c as [|[k' x] r IH]; cbn; intros Hnin; auto.
+  destruct (N.eqb k' k) eqn:E.
+  - apply N.eqb_eq in E. subst. exfalso. apply Hnin. now left.
+  - apply IH. intros Hin. apply Hnin. now right.
+Qed.
+
+Definition char_at (u : upd) : Prop :=
+  forall s s', swf s -> upd_wf u -> apply_update s u = Ok s' ->
+  forall p d v, snode_at s p = Some (SLeaf d v) ->
+    exists v', snode_at s' p = Some (SLeaf d v') /\ leaf_fold d v (updates_at u p) = Ok v'.
+
+Lemma char_leaf_form u :
+  (forall s, apply_update s u =
+             match s with
+             | SLeaf d v => match apply_leaf d v u with Ok v' => Ok (SLeaf d v') | Err e => Err e end
+             | SBranch _ => Err EOther
+             end) ->
+  (forall p, updates_at u p = match p with [] => [u] | _ => [] end) ->
+  char_at u.
+Proof.
+  intros Hau Hup s s' _ _ Happ p d v Hat. rewrite Hau in Happ.
+  destruct s as [d0 v0|sc]; [|discriminate].
+  destruct p as [|k p']; [|cbn in Hat; discriminate].
+  cbn in Hat. inversion Hat; subst d0 v0.
+  destruct (apply_leaf d v u) as [v'|e] eqn:E; [|discriminate].
+  inversion Happ; subst s'. exists v'. split; [reflexivity|].
+  rewrite Hup, leaf_fold_one. exact E.
+Qed.
+
+Lemma branch_go_char c :
+  Forall (fun kv => char_at (snd kv)) c ->
+  forall sc s', NoDup (akeys c) -> Forall (fun kv => upd_wf (snd kv)) c ->
+    NoDup (akeys sc) -> Forall (fun kv => swf (snd kv)) sc ->
+    branch_go c sc = Ok s' ->
+    exists sc', s' = SBranch sc' /\
+      forall k p d v, child_at sc k p = Some (SLeaf d v) ->
+        exists v', child_at sc' k p = Some (SLeaf d v') /\ leaf_fold d v (find_upd c k p) = Ok v'.
+Proof.
+  intros IHc. induction IHc as [|[k x] r Hx Hr IH];
+    intros sc s' Hndc Hwfc Hnd Hall Happ; cbn [branch_go] in Happ.
+  - inversion Happ; subst. exists sc. split; [reflexivity|].
+    intros k p d v Hat. exists v. split; [exact Hat|reflexivity].
+  - cbn [snd] in Hx.
+    cbn in Hndc. inversion Hndc as [|k0 l0 Hnin Hndr]; subst k0 l0.
+    inversion Hwfc as [|kv0 l0 Hwx Hwr]; subst kv0 l0. cbn [snd] in Hwx.
+    destruct (alookup k sc) as [child|] eqn:Ek.
+    + destruct (apply_update child x) as [child'|e] eqn:E1; [|discriminate].
+      assert (Hchild : swf child) by (eapply Forall_snd_alookup; eauto).
+      assert (Hchild' : swf child') by (eapply apply_update_swf; eauto).
+      destruct (IH (aset k child' sc) s' Hndr Hwr (aset_nodup _ _ _ Hnd)
+                   (Forall_snd_aset _ _ _ _ Hchild' Hall) Happ) as [sc' [-> Hsc']].
+      exists sc'. split; [reflexivity|].
+      intros k0 p d v Hat. cbn [find_upd]. destruct (N.eqb k k0) eqn:E.
+      * apply N.eqb_eq in E. subst k0. unfold child_at in Hat. rewrite Ek in Hat.
+        destruct (Hx child child' Hchild Hwx E1 p d v Hat) as [v1 [Hat1 Hf1]].
+        destruct (Hsc' k p d v1) as [v' [Hat' Hf']].
+        { unfold child_at. rewrite alookup_aset_eq. exact Hat1. }
+        rewrite (find_upd_notin r k p Hnin), leaf_fold_nil in Hf'. inversion Hf'; subst v'.
+        exists v1. split; assumption.
+      * apply N.eqb_neq in E. apply Hsc'. unfold child_at.
+        rewrite alookup_aset_neq by exact E. exact Hat.
+    + destruct (IH sc s' Hndr Hwr Hnd Hall Happ) as [sc' [-> Hsc']].
+      exists sc'. split; [reflexivity|].
+      intros k0 p d v Hat. cbn [find_upd]. destruct (N.eqb k k0) eqn:E.
+      * apply N.eqb_eq in E. subst k0. unfold child_at in Hat. rewrite Ek in Hat. discriminate.
+      * apply Hsc'. exact Hat.
+Qed.
+
+Lemma apply_update_char_gen u : char_at u.
+Proof.
+  induction u as [x|x|f x|l IHl|c IHc] using upd_ind'.
+  - apply char_leaf_form; [intros [d v|sc]; reflexivity|intros [|k p]; reflexivity].
+  - apply char_leaf_form; [intros [d v|sc]; reflexivity|intros [|k p]; reflexivity].
+  - apply char_leaf_form; [intros [d v|sc]; reflexivity|intros [|k p]; reflexivity].
+  - intros s s' Hs Hwf Happ p d v Hat.
+    inversion Hwf as [| | |l0 Hwl|]; subst l0. clear Hwf.
+    rewrite apply_update_multi in Happ. rewrite updates_at_multi.
+    revert s v Hs Hwl Happ Hat.
+    induction IHl as [|x r Hx Hr IH]; intros s v Hs Hwl Happ Hat; cbn [multi_go] in Happ.
+    + inversion Happ; subst. exists v. split; [exact Hat|reflexivity].
+    + inversion Hwl as [|x0 l0 Hwx Hwr]; subst x0 l0.
+      destruct (apply_update s x) as [s1|e] eqn:E1; [|discriminate].
+      destruct (Hx s s1 Hs Hwx E1 p d v Hat) as [v1 [Hat1 Hf1]].
+      assert (Hs1 : swf s1) by (eapply apply_update_swf; eauto).
+      destruct (IH s1 v1 Hs1 Hwr Happ Hat1) as [v' [Hat' Hf']].
+      exists v'. split; [exact Hat'|].
+      cbn [map concat]. rewrite (leaf_fold_app _ _ _ _ _ Hf1). exact Hf'.
+  - intros s s' Hs Hwf Happ p d v Hat.
+    inversion Hwf as [| | | |c0 Hndc Hwc]; subst c0. clear Hwf.
+    destruct s as [d0 v0|sc]; [cbn in Happ; discriminate|].
+    rewrite apply_update_branch in Happ.
+    inversion Hs as [|sc0 Hnd Hall]; subst sc0.
+    destruct (branch_go_char c IHc sc s' Hndc Hwc Hnd Hall Happ) as [sc' [-> Hsc']].
+    destruct p as [|k p']; [cbn in Hat; discriminate|].
+    rewrite snode_at_branch in Hat. rewrite snode_at_branch, updates_at_branch.
+    apply Hsc'. exact Hat.
+Qed.
+
+(* ---- Store.apply_update, value part: full characterisation ---- *)
+(* After a successful update, every leaf keeps its declaration and holds the fold of exactly the
+   leaf-level updates addressed to it, in application order; hence untouched leaves are unchanged. *)
+Theorem apply_update_char s u s' : swf s -> upd_wf u -> apply_update s u = Ok s' ->
+  forall p d v, snode_at s p = Some (SLeaf d v) ->
+    exists v', snode_at s' p = Some (SLeaf d v') /\ leaf_fold d v (updates_at u p) = Ok v'.
+Proof. apply apply_update_char_gen. Qed.
+
+Theorem apply_update_frame s u s' p : swf s -> upd_wf u -> apply_update s u = Ok s' ->
+  updates_at u p = [] -> value_at s' p = value_at s p.
+Proof.
+  intros Hs Hwf Happ Hnil. unfold value_at.
+  destruct (snode_at s p) as [[d v|sc]|] eqn:Es.
+  - destruct (apply_update_char s u s' Hs Hwf Happ p d v Es) as [v' [Hat' Hf']].
+    rewrite Hnil, leaf_fold_nil in Hf'. inversion Hf'; subst. rewrite Hat'. reflexivity.
+  - pose proof (apply_update_kind u s s' p Happ) as Hk. rewrite Es in Hk.
+    destruct (snode_at s' p) as [[d' v'|sc']|]; cbn in Hk; tauto.
+  - pose proof (apply_update_kind u s s' p Happ) as Hk. rewrite Es in Hk.
+    destruct (snode_at s' p) as [[d' v'|sc']|]; cbn in Hk; tauto.
+Qed.
+
+(* no node is created or removed by a value update *)
+Theorem apply_update_shape s u s' p : swf s -> upd_wf u -> apply_update s u = Ok s' ->
+  (snode_at s p = None <-> snode_at s' p = None).
+Proof.
+  intros _ _ Happ. pose proof (apply_update_kind u s s' p Happ) as Hk.
+  destruct (snode_at s p) as [[d v|sc]|], (snode_at s' p) as [[d' v'|sc']|]; cbn in Hk;
+    try tauto; split; discriminate.
+Qed.
+
+(* _multi_update = the updates one after the other; a batch is a left fold *)
+Theorem multi_is_batch s l : apply_update s (UMulti l) = apply_batch s l.
+Proof.
+  rewrite apply_update_multi. unfold apply_batch. revert s.
+  induction l as [|x r IH]; intros s; cbn [multi_go fold_left]; [reflexivity|].
+  cbn [rbind]. destruct (apply_update s x) as [s1|e].
+  - apply IH.
+  - symmetry. apply (fold_rbind_err (fun s' u => apply_update s' u)).
+Qed.
+
+Theorem batch_is_fold us : forall s s', swf s -> Forall upd_wf us -> apply_batch s us = Ok s' ->
+  forall p d v, snode_at s p = Some (SLeaf d v) ->
+    exists v', snode_at s' p = Some (SLeaf d v') /\
+               leaf_fold d v (concat (map (fun u => updates_at u p) us)) = Ok v'.
+Proof.
+  intros s s' Hs Hwf Happ p d v Hat. rewrite <- multi_is_batch in Happ.
+  rewrite <- updates_at_multi.
+  exact (apply_update_char s (UMulti us) s' Hs (uw_multi _ Hwf) Happ p d v Hat).
+Qed.
+
+(* ---- a single update to a single variable: f(v, u) with the declared or the named updater ---- *)
+Theorem leaf_declared d v x v' : d_updater d <> DictValue ->
+  apply_leaf d v (UVal x) = Ok v' -> rbind (apply_updater (d_updater d) v x) (to_units (d_units d)) = Ok v'.
+Proof.
+  intros Hne H. unfold apply_leaf in H. destruct (d_updater d); exact H.
+Qed.
+
+Theorem leaf_override d v f x :
+  apply_leaf d v (UWith (Some f) (Some x)) = rbind (apply_updater f v x) (to_units (d_units d)).
+Proof. reflexivity. Qed.
+
+Theorem leaf_override_default d v f :
+  apply_leaf d v (UWith (Some f) None) = rbind (apply_updater f v (d_default d)) (to_units (d_units d)).
+Proof. reflexivity. Qed.
+
+(* ---- laws of the updaters ---- *)
+Theorem accumulate_int a b : apply_updater Accumulate (UZ a) (UZ b) = Ok (UZ (a + b)).
+Proof. reflexivity. Qed.
+
+Theorem accumulate_list a b : apply_updater Accumulate (UList a) (UList b) = Ok (UList (a ++ b)).
+Proof. reflexivity. Qed.
+
+Lemma zip_add_spec a : forall b r, zip_add a b = Some r ->
+  length r = length a /\ length a = length b /\
+  forall i, (i < length a)%nat -> nth i r 0 = nth i a 0 + nth i b 0.
+Proof.
+  induction a as [|x a' IH]; intros [|y b'] r H; cbn [zip_add] in H; try discriminate.
+  - inversion H; subst. cbn. repeat split; auto. intros i Hi. inversion Hi.
+  - destruct (zip_add a' b') as [r'|] eqn:E; [|discriminate]. inversion H; subst r.
+    destruct (IH b' r' E) as [H1 [H2 H3]]. cbn [length]. repeat split; try congruence.
+    intros [|i] Hi; cbn [nth]; [reflexivity|]. apply H3. apply Nat.succ_lt_mono. exact Hi.
+Qed.
+
+Lemma zip_add_total a : forall b, length a = length b -> exists r, zip_add a b = Some r.
+Proof.
+  induction a as [|x a' IH]; intros [|y b'] H; cbn in H; try discriminate.
+  - exists []. reflexivity.
+  - destruct (IH b') as [r' Hr']; [congruence|]. exists ((x + y) :: r'). cbn [zip_add]. rewrite Hr'. reflexivity.
+Qed.
+
+Theorem accumulate_array a b r : apply_updater Accumulate (UArr a) (UArr b) = Ok (UArr r) ->
+  length r = length a /\ length a = length b /\ forall i, (i < length a)%nat -> nth i r 0 = nth i a 0 + nth i b 0.
+Proof.
+  cbn [apply_updater py_add]. intros H. destruct (zip_add a b) as [r'|] eqn:E; [|discriminate].
+  inversion H; subst r'. apply zip_add_spec. exact E.
+Qed.
+
+Theorem accumulate_array_total a b : length a = length b -> exists r, apply_updater Accumulate (UArr a) (UArr b) = Ok (UArr r).
+Proof.
+  intros H. destruct (zip_add_total a b H) as [r Hr]. exists r.
+  cbn [apply_updater py_add]. rewrite Hr. reflexivity.
+Qed.
+
+Theorem set_law v u : apply_updater Set_ v u = Ok u.
+Proof. reflexivity. Qed.
+
+Theorem null_law v u : apply_updater Null v u = Ok v.
+Proof. reflexivity. Qed.
+
+Theorem nonneg_int a b : apply_updater NonnegAccumulate (UZ a) (UZ b) = Ok (UZ (Z.max 0 (a + b))).
+Proof.
+  cbn [apply_updater py_add]. do 2 f_equal.
+  destruct (0 <=? a + b) eqn:E; [apply Z.leb_le in E|apply Z.leb_gt in E]; lia.
+Qed.
+
+Lemma nth_map_clip l : forall i, (i < length l)%nat ->
+  nth i (map (fun x => if x <? 0 then 0 else x) l) 0 = Z.max 0 (nth i l 0).
+Proof.
+  induction l as [|x r IH]; intros i Hi; cbn [length] in Hi; [inversion Hi|].
+  destruct i as [|i]; cbn [map nth].
+  - destruct (x <? 0) eqn:E; [apply Z.ltb_lt in E|apply Z.ltb_ge in E]; lia.
+  - apply IH. apply Nat.succ_lt_mono. exact Hi.
+Qed.
+
+Theorem nonneg_array a b r : apply_updater NonnegAccumulate (UArr a) (UArr b) = Ok (UArr r) ->
+  length r = length a /\ forall i, (i < length a)%nat -> nth i r 0 = Z.max 0 (nth i a 0 + nth i b 0).
+Proof.
+  cbn [apply_updater py_add]. intros H. destruct (zip_add a b) as [r'|] eqn:E; [|discriminate].
+  inversion H; subst r. destruct (zip_add_spec a b r' E) as [H1 [H2 H3]].
+  split; [rewrite map_length; exact H1|].
+  intros i Hi. rewrite nth_map_clip by (rewrite H1; exact Hi). rewrite H3 by exact Hi. reflexivity.
+Qed.
+
+(* merge: keys of v and u; u wins on shared non-dict keys; nested dicts deep-merged; the rest unchanged *)
+Definition merge_step (acc : list (key * tree Z)) (kn : key * tree Z) : list (key * tree Z) :=
+  match alookup (fst kn) acc, snd kn with
+  | Some (Nd vc), Nd nc => aset (fst kn) (deep_merge (Nd vc) (Nd nc)) acc
+  | _, n => aset (fst kn) n acc
+  end.
+
+Lemma merge_dict_cons c kn n : merge_dict c (kn :: n) = merge_dict (merge_step c kn) n.
+Proof. reflexivity. Qed.
+
+Lemma merge_step_aset c kn : exists t, merge_step c kn = aset (fst kn) t c.
+Proof.
+  unfold merge_step. destruct (alookup (fst kn) c) as [[x|vc]|], (snd kn) as [y|nc]; eexists; reflexivity.
+Qed.
+
+Theorem merge_law c n k : NoDup (akeys n) ->
+  alookup k (merge_dict c n) =
+  match alookup k n with
+  | None => alookup k c
+  | Some (Nd nc) => match alookup k c with
+                    | Some (Nd vc) => Some (deep_merge (Nd vc) (Nd nc))
+                    | _ => Some (Nd nc)
+                    end
+  | Some (Lf x) => Some (Lf x)
+  end.
+Proof.
+  revert c. induction n as [|[k0 t] r IH]; intros c Hnd.
+  - reflexivity.
+  - cbn in Hnd. inversion Hnd as [|k1 l1 Hnin Hndr]; subst k1 l1.
+    rewrite merge_dict_cons, (IH _ Hndr). cbn [alookup].
+    destruct (N.eqb k0 k) eqn:E.
+    + apply N.eqb_eq in E. subst k0.
+      apply alookup_None_notin in Hnin. rewrite Hnin.
+      unfold merge_step. cbn [fst snd].
+      destruct (alookup k c) as [[x|vc]|], t as [y|nc]; apply alookup_aset_eq.
+    + apply N.eqb_neq in E.
+      assert (Hc : alookup k (merge_step c (k0, t)) = alookup k c).
+      { destruct (merge_step_aset c (k0, t)) as [t' ->]. cbn [fst].
+        apply alookup_aset_neq. exact E. }
+      rewrite Hc. reflexivity.
+Qed.
+
+Theorem merge_keys c n k : In k (akeys (merge_dict c n)) <-> In k (akeys c) \/ In k (akeys n).
+Proof.
+  revert c. induction n as [|kn r IH]; intros c.
+  - cbn. tauto.
+  - rewrite merge_dict_cons, IH. destruct (merge_step_aset c kn) as [t ->].
+    rewrite akeys_aset_incl. unfold akeys. cbn [map In].
+    split; intros H; intuition (subst; auto).
+Qed.
+
+Theorem merge_nodup c n : NoDup (akeys c) -> NoDup (akeys (merge_dict c n)).
+Proof.
+  revert c. induction n as [|kn r IH]; intros c Hnd.
+  - exact Hnd.
+  - rewrite merge_dict_cons. apply IH. destruct (merge_step_aset c kn) as [t ->].
+    apply aset_nodup. exact Hnd.
+Qed.
+
+(* the pinned (pre-repair) merge set unmentioned keys to None and dropped new keys *)
+Theorem merge_refuted_pinned : exists c n none k k',
+  alookup k n = None /\ alookup k c <> None /\ alookup k (merge_dict_pinned c n none) = Some none /\
+  alookup k' n <> None /\ alookup k' (merge_dict_pinned c n none) = None.
+Proof.
+exists [(1%N, Lf 0)], [(2%N, Lf 5)], (Lf 99), 1%N, 2%N. cbn.
+  repeat split; discriminate.
+Qed.
+
+(* dict_value *)
+(* (the value type is not determined by the statement: stated for any V; the model uses V = tree Z) *)
+Theorem dict_value_add {V : Type} (c l : list (key * V)) k : alookup k (fold_left (fun a kv => aset (fst kv) (snd kv) a) l c) =
+  match alookup k (rev l) with Some s => Some s | None => alookup k c end.
+Proof.
+  induction l as [|[k0 v0] l' IH] using rev_ind.
+  - reflexivity.
+  - rewrite fold_left_app, rev_app_distr. cbn [fold_left rev app fst snd alookup].
+    destruct (N.eqb k0 k) eqn:E.
+    + apply N.eqb_eq in E. subst k0. apply alookup_aset_eq.
+    + apply N.eqb_neq in E. rewrite alookup_aset_neq by exact E. exact IH.
+Qed.
+
+Theorem dict_value_delete c k c' : NoDup (akeys c) -> dv_step (Ok c) (DDel [k]) = Ok c' ->
+  alookup k c <> None /\ alookup k c' = None /\ forall k', k' <> k -> alookup k' c' = alookup k' c.
+Proof.
+  intros Hnd H. cbn in H. destruct (alookup k c) as [t|] eqn:E; [|discriminate].
+  inversion H; subst c'. split; [discriminate|]. split.
+  - apply alookup_aremove_eq. exact Hnd.
+  - intros k' Hne. apply alookup_aremove_neq. congruence.
+Qed.
+
+Theorem dict_value_delete_missing c k : alookup k c = None -> dv_step (Ok c) (DDel [k]) = Err EKeyError.
+Proof. intros H. cbn. rewrite H. reflexivity. Qed.
+
+Theorem dict_value_unknown_key c k v : alookup k c = None -> dv_step (Ok c) (DKey k v) = Err EOther.
+Proof. intros H. cbn. rewrite H. reflexivity. Qed.
+
+Theorem dict_value_key c k v inner : alookup k c = Some (Nd inner) ->
+  dv_step (Ok c) (DKey k v) = Ok (aset k (Nd (fold_left (fun a kv => aset (fst kv) (snd kv) a) v inner)) c).
+Proof. intros H. cbn [dv_step rbind]. rewrite H. reflexivity. Qed.
+
+(* units: a variable with declared units always holds a quantity in those units afterwards, and
+   accumulating a compatible quantity adds the base magnitudes *)
+Lemma to_units_some du w v' : to_units (Some du) w = Ok v' -> exists m, v' = UQty m du.
+Proof.
+  unfold to_units. destruct w as [z|l|l|t|m s|]; try discriminate.
+  destruct ((0 <? du) && (s mod du =? 0))%bool; [|discriminate].
+  intros H. inversion H. eexists; reflexivity.
+Qed.
+
+Lemma rbind_to_units_some (r : res uval) du v' :
+  rbind r (to_units (Some du)) = Ok v' -> exists m, v' = UQty m du.
+Proof.
+  destruct r as [w|e]; cbn [rbind]; [apply to_units_some|discriminate].
+Qed.
+
+Theorem units_normalised d v u v' du : d_units d = Some du -> apply_leaf d v u = Ok v' -> exists m, v' = UQty m du.
+Proof.
+  intros Hu H. unfold apply_leaf in H. rewrite Hu in H.
+  destruct u as [x|dv|[f|] [x|]|l|c]; try discriminate.
+  - destruct (d_updater d); try discriminate; eapply rbind_to_units_some; exact H.
+  - destruct (d_updater d); try discriminate; eapply rbind_to_units_some; exact H.
+  - eapply rbind_to_units_some; exact H.
+  - eapply rbind_to_units_some; exact H.
+Qed.
+
+Theorem units_accumulate d mv mu su v' du : d_units d = Some du -> d_updater d = Accumulate ->
+  apply_leaf d (UQty mv du) (UVal (UQty mu su)) = Ok v' -> base v' = mv * du + mu * su.
+Proof.
+  intros Hu Hf H. unfold apply_leaf in H. rewrite Hu, Hf in H.
+  cbn [apply_updater py_add] in H.
+  destruct ((0 <? du) && (su mod du =? 0))%bool eqn:E; [|discriminate].
+  cbn [rbind to_units] in H. rewrite Z.mod_same in H.
+  2:{ apply andb_prop in E as [E1 _]. apply Z.ltb_lt in E1. lia. }
+  apply andb_prop in E as [E1 E2]. rewrite E1 in H. cbn [andb Z.eqb] in H.
+  apply Z.ltb_lt in E1. apply Z.eqb_eq in E2.
+  inversion H; subst v'. cbn [base].
+  rewrite Z.div_same by lia.
+  pose proof (Z_div_exact_full_2 su du ltac:(lia) E2) as Hex.
+  set (q := su / du) in *. clearbody q. subst su. ring.
+Qed.
+
+Print Assumptions apply_update_char.
+Print Assumptions apply_update_swf.
+Print Assumptions apply_update_frame.
+Print Assumptions apply_update_shape.
+Print Assumptions multi_is_batch.
+Print Assumptions batch_is_fold.
+Print Assumptions leaf_declared.
+Print Assumptions leaf_override.
+Print Assumptions leaf_override_default.
+Print Assumptions accumulate_int.
+Print Assumptions accumulate_list.
+Print Assumptions accumulate_array.
+Print Assumptions accumulate_array_total.
+Print Assumptions set_law.
+Print Assumptions null_law.
+Print Assumptions nonneg_int.
+Print Assumptions nonneg_array.
+Print Assumptions merge_law.
+Print Assumptions merge_keys.
+Print Assumptions merge_nodup.
+Print Assumptions merge_refuted_pinned.
+Print Assumptions dict_value_add.
+Print Assumptions dict_value_delete.
+Print Assumptions dict_value_delete_missing.
+Print Assumptions dict_value_unknown_key.
+Print Assumptions dict_value_key.
+Print Assumptions units_normalised.
+Print Assumptions units_accumulate.
